@@ -25,6 +25,8 @@ use url::Url;
 use crate::*;
 
 pub mod record;
+#[cfg(feature = "verif_hooks")]
+pub mod verif;
 
 mod error;
 pub mod local;
@@ -67,6 +69,10 @@ pub struct Transport {
 
     /// If recording is enabled, a list of all operations on all derived transports.
     recording: Arc<Mutex<Recording>>,
+
+    /// Verification interceptor called around every storage operation.
+    #[cfg(feature = "verif_hooks")]
+    interceptor: Option<Arc<dyn verif::Interceptor>>,
 }
 
 impl Transport {
@@ -103,6 +109,39 @@ impl Transport {
             record_calls: false,
             sub_path: String::new(),
             recording: Arc::new(Mutex::new(Recording::new())),
+            #[cfg(feature = "verif_hooks")]
+            interceptor: None,
+        }
+    }
+
+    /// Install a verification interceptor on this transport and everything derived from it.
+    #[cfg(feature = "verif_hooks")]
+    #[must_use]
+    pub fn with_interceptor(self, interceptor: Arc<dyn verif::Interceptor>) -> Transport {
+        Transport {
+            interceptor: Some(interceptor),
+            ..self
+        }
+    }
+
+    #[cfg(feature = "verif_hooks")]
+    fn verif_op<'a>(
+        &self,
+        verb: Verb,
+        path: &str,
+        content: Option<&'a [u8]>,
+        mode: Option<WriteMode>,
+    ) -> verif::Op<'a> {
+        let path = match (self.sub_path.is_empty(), path.is_empty()) {
+            (true, _) => path.to_owned(),
+            (false, true) => self.sub_path.clone(),
+            (false, false) => format!("{}/{}", self.sub_path, path),
+        };
+        verif::Op {
+            verb,
+            path,
+            content,
+            mode,
         }
     }
 
@@ -188,11 +227,27 @@ impl Transport {
     /// implementations.
     pub async fn read(&self, path: &str) -> Result<Bytes> {
         self.record(Verb::Read, path);
+        #[cfg(feature = "verif_hooks")]
+        if let Some(h) = &self.interceptor {
+            let op = self.verif_op(Verb::Read, path, None, None);
+            return verif::run(h.as_ref(), op, self.protocol.read(path), |b| {
+                verif::Outcome::Bytes(b)
+            })
+            .await;
+        }
         self.protocol.read(path).await
     }
 
     pub async fn list_dir(&self, relpath: &str) -> Result<Vec<DirEntry>> {
         self.record(Verb::ListDir, relpath);
+        #[cfg(feature = "verif_hooks")]
+        if let Some(h) = &self.interceptor {
+            let op = self.verif_op(Verb::ListDir, relpath, None, None);
+            return verif::run(h.as_ref(), op, self.protocol.list_dir(relpath), |e| {
+                verif::Outcome::Entries(e)
+            })
+            .await;
+        }
         self.protocol.list_dir(relpath).await
     }
 
@@ -212,34 +267,85 @@ impl Transport {
             sub_path,
             record_calls: self.record_calls,
             recording: Arc::clone(&self.recording),
+            #[cfg(feature = "verif_hooks")]
+            interceptor: self.interceptor.clone(),
         }
     }
 
     pub async fn write(&self, relpath: &str, content: &[u8], mode: WriteMode) -> Result<()> {
         self.record(Verb::Write, relpath);
+        #[cfg(feature = "verif_hooks")]
+        if let Some(h) = &self.interceptor {
+            let op = self.verif_op(Verb::Write, relpath, Some(content), Some(mode));
+            return verif::run(
+                h.as_ref(),
+                op,
+                self.protocol.write(relpath, content, mode),
+                |_| verif::Outcome::Unit,
+            )
+            .await;
+        }
         self.protocol.write(relpath, content, mode).await
     }
 
     pub async fn create_dir(&self, relpath: &str) -> Result<()> {
         self.record(Verb::CreateDir, relpath);
+        #[cfg(feature = "verif_hooks")]
+        if let Some(h) = &self.interceptor {
+            let op = self.verif_op(Verb::CreateDir, relpath, None, None);
+            return verif::run(h.as_ref(), op, self.protocol.create_dir(relpath), |_| {
+                verif::Outcome::Unit
+            })
+            .await;
+        }
         self.protocol.create_dir(relpath).await
     }
 
     /// Return mtime, size, and other metadata about a file.
     pub async fn metadata(&self, relpath: &str) -> Result<Metadata> {
         self.record(Verb::Metadata, relpath);
+        #[cfg(feature = "verif_hooks")]
+        if let Some(h) = &self.interceptor {
+            let op = self.verif_op(Verb::Metadata, relpath, None, None);
+            return verif::run(h.as_ref(), op, self.protocol.metadata(relpath), |m| {
+                verif::Outcome::Meta {
+                    kind: m.kind,
+                    len: m.len,
+                }
+            })
+            .await;
+        }
         self.protocol.metadata(relpath).await
     }
 
     /// Delete a file.
     pub async fn remove_file(&self, relpath: &str) -> Result<()> {
         self.record(Verb::RemoveFile, relpath);
+        #[cfg(feature = "verif_hooks")]
+        if let Some(h) = &self.interceptor {
+            let op = self.verif_op(Verb::RemoveFile, relpath, None, None);
+            return verif::run(h.as_ref(), op, self.protocol.remove_file(relpath), |_| {
+                verif::Outcome::Unit
+            })
+            .await;
+        }
         self.protocol.remove_file(relpath).await
     }
 
     /// Delete a directory and all its contents.
     pub async fn remove_dir_all(&self, relpath: &str) -> Result<()> {
         self.record(Verb::RemoveDirAll, relpath);
+        #[cfg(feature = "verif_hooks")]
+        if let Some(h) = &self.interceptor {
+            let op = self.verif_op(Verb::RemoveDirAll, relpath, None, None);
+            return verif::run(
+                h.as_ref(),
+                op,
+                self.protocol.remove_dir_all(relpath),
+                |_| verif::Outcome::Unit,
+            )
+            .await;
+        }
         self.protocol.remove_dir_all(relpath).await
     }
 
